@@ -445,6 +445,16 @@ def opRes (r : Reservoir.St Rng) (op : String) (a : List Nat) : Out :=
     match goF (xs.filter (· < 2^40)) r with
     | some r' => .upd (.res r')
     | none => .panic
+  | "res.extendp", j :: xs =>
+    -- `extend` from an iterator that panics after `j` items (caught by the caller): `j` items consumed
+    let rec goP : List Nat → Reservoir.St Rng → Option (Reservoir.St Rng)
+      | [], r => some r
+      | x :: rest, r => match Reservoir.add resRng r x with
+        | some r' => goP rest r'
+        | none => none
+    match goP (xs.take j) r with
+    | some r' => .upd (.res r') (if j < xs.length then "caught" else "ok")
+    | none => .panic
   | "res.get", [] => .ans (s!"{r.k} {r.i} : " ++ " ".intercalate (r.res.toList.map toString))
   | "res.empty", [] => .ans (b2s (Reservoir.isEmpty r))
   | "res.clear", [] => .upd (.res (Reservoir.clear r))
